@@ -337,14 +337,16 @@ def stream_worker(spec):
         await asyncio.sleep(0)
     proxy.sleep = _sleep
     AC.asyncio = proxy       # the asyncio login loop sleeps 0.1 s per iteration: timing only
-    for idx, (t, o, n) in spec["cases"]:
+    for idx, case in spec["cases"]:
+        t, o, n = case[:3]
+        lock = bool(len(case) > 3 and case[3])      # channel_lock=True with the REAL threading / asyncio lock and the real timeout mechanism
         print(json.dumps({"start": idx}), flush=True)
         link = L.Link(t, device=TelnetDev(), after="same")
         link.byte_fault = (n, o)
         ops = []
         with L.patched(link):
             conn = L.make_real_conn(t, link, timeout_ops=spec.get("timeout_ops", 2.0), wire=False, auth_bypass=False, auth_username="u", auth_password="pw",
-                                    comms_prompt_pattern=PATTERN)
+                                    comms_prompt_pattern=PATTERN, channel_lock=lock)
             if t in L.ASYNC:
                 L.ReadGuard(conn)
             failed = False
@@ -359,6 +361,7 @@ def stream_worker(spec):
                     rec = {"op": name, "ok": False, "exc": type(e).__name__, "scrapli": isinstance(e, ScrapliException), "msg": str(e)[:100]}
                 rec["s"] = round(time.time() - t0, 3)
                 ops.append(rec)
+                print(json.dumps({"progress": idx, "ops": ops}), flush=True)
                 return rec
             for name, fn in (("open", "open"), ("get_prompt", "get_prompt"), ("send_command", "send_command"),
                              ("send_command2", lambda: conn.send_command("show clock"))):
@@ -366,7 +369,8 @@ def stream_worker(spec):
                     failed = True
                     break
             one("isalive", "isalive")
-            one("further", "get_prompt")
+            one("further", "get_prompt")            # second ...
+            one("further2", "send_command")         # ... and third operation on the same connection
             one("close", "close")
             L.dispose(t, conn.transport)
         print(json.dumps({"idx": idx, "ops": ops, "failed": failed, "complete": True, "pend": link.pend}), flush=True)
@@ -388,7 +392,7 @@ def run_stream_cases(repo, cases, per_case_limit=20.0, timeout_ops=2.0):
                 q.put(line)
             q.put(None)
         threading.Thread(target=pump, daemon=True).start()
-        current, hung = None, False
+        current, hung, progress = None, False, []
         first = True
         while True:
             try:
@@ -403,7 +407,9 @@ def run_stream_cases(repo, cases, per_case_limit=20.0, timeout_ops=2.0):
                 continue
             d = json.loads(line)
             if "start" in d:
-                current = d["start"]
+                current, progress = d["start"], []
+            elif "progress" in d:
+                progress = d["ops"]
             elif "idx" in d:
                 results[d["idx"]] = {"killed": False, "res": d}
                 current = None
@@ -416,7 +422,7 @@ def run_stream_cases(repo, cases, per_case_limit=20.0, timeout_ops=2.0):
             pass
         done = {i for i, r in enumerate(results) if r is not None}
         if hung and current is not None:
-            results[current] = {"killed": True, "res": {"ops": [{"op": "?", "ok": True}], "failed": True}}
+            results[current] = {"killed": True, "res": {"ops": progress or [{"op": "start", "ok": True}], "failed": True}}
             done.add(current)
         elif not hung and p.returncode not in (0, None) and current is not None:
             results[current] = {"killed": False, "res": None, "err": err[-800:]}
@@ -486,7 +492,7 @@ def judge(r, slack=4.0, hard_limit=HARD_LIMIT):
     spec, res = r["spec"], r["res"]
     t = "system" if spec["rig"] == "pty" else spec["rig"]
     if r["killed"]:
-        stuck = res["ops"][-1]["op"] if res and res["ops"] else "start"
+        stuck = res["ops"][-1]["op"] if res and res.get("ops") else "start"
         return [(["righang", t], f"{spec}: no result within {hard_limit}s (timeout_ops={TIMEOUT_OPS}): the operation hangs; last finished step: {stuck}")]
     ops = {o["op"]: o for o in res["ops"]}
     if not res.get("failed"):
@@ -504,9 +510,11 @@ def judge(r, slack=4.0, hard_limit=HARD_LIMIT):
         al = ops.get("isalive")
         if not (al and al["ok"] and al["value"] == "False"):
             bad.append((["rigalive", t], f"{spec}: isalive() after the drop -> {al}"))
-        fu = ops.get("further")
-        if fu and (fu["ok"] or not fu["scrapli"]):
-            bad.append((["rigexc", t, fu.get("exc", "no-exception")], f"{spec}: further operation on the dead connection -> {fu}"))
+        for name in ("further", "further2"):
+            fu = ops.get(name)
+            if fu and (fu["ok"] or not fu["scrapli"]):
+                bad.append((["rigexc", t, fu.get("exc", "no-exception")], f"{spec}: {name} operation on the dead connection -> {fu}"))
+                break
         cl = ops.get("close")
         if cl and not cl["ok"] and not cl["scrapli"]:
             bad.append((["rigexc", t, cl["exc"]], f"{spec}: close() on the dead connection -> {cl}"))
